@@ -14,7 +14,7 @@ LEVEL_TEXT = (
     "block carrying it that compiles holds, of lovelace and of every token, exactly what integer arithmetic gives for "
     "the expression as written (compile_view, C02_source_to_output); payments p1..pn next to the change "
     "source - p1 - .. - pn - fees add up, class by class, to the total of the UTxOs assigned to source less the fee "
-    "(C02_balance); "
+    "(C02_balance; with a minted and a burnt amount in the change, C02_balance_mint); "
     "out-of-range values make the model return an error. The two remaining silent alterations (negative lovelace "
     "wraps, negative native asset dropped - both pinned by hashes in the repository's own tests) are proved as "
     "witnesses and reported as known findings. The reducer's checked arithmetic is covered by the L3 correspondence."
@@ -32,7 +32,7 @@ THEOREMS = ["Tx3.C02_fee_exact", "Tx3.C02_validity_exact", "Tx3.C02_mint_range",
             "Tx3.compileValue_exact", "Tx3.compileValues_exact", "Tx3.assetQty_insertAsset",
             "Tx3.C02_output_exact_partial", "Tx3.C02_output_block_exact",
             "Tx3.view_triples", "Tx3.range_triples", "Tx3.compile_view", "Tx3.den_odd", "Tx3.C02_source_to_output",
-            "Tx3.den_minusAll", "Tx3.C02_balance"]
+            "Tx3.den_minusAll", "Tx3.C02_balance", "Tx3.C02_balance_mint"]
 ASSUMPTIONS = [cc.MODEL_NOTE,
                "pallas' CBOR encoder is not modelled: its output is read back by the independent Lean reader",
                "spec oracle: expected quantities are computed from the constant template by plain integer arithmetic in the driver"]
